@@ -160,6 +160,7 @@ class World:
         self.lost_msgs = []       # (key, message) dropped for good
         self._job_last_due = {}
         self.effect_log = None    # list of (kind, detail) when recording
+        self.superseded = []      # (key, job) replaced by a duplicate launch
 
     # ------------------------------------------------------------------
     def effect(self, kind, detail=''):
@@ -252,6 +253,7 @@ class World:
             job = SimJob(key, plan, now + lat, timing)
             if key in self.jobs:
                 self.dup_launches.append(key)
+                self.superseded.append((key, self.jobs[key]))
                 sim.log('DUP-LAUNCH', key)
                 # the newer launch replaces the older in the world's table,
                 # (the violation is recorded separately)
